@@ -1277,10 +1277,28 @@ func check(b *sqlx.Builder, c *schema.Check) {
 }
 
 func quote(s string) string {
-	if sqlx.IsQuoted(s, '\'') {
+	if isQuoted(s) {
 		return s
 	}
 	return "'" + strings.ReplaceAll(s, "'", "''") + "'"
+}
+
+// isQuoted reports if s is a quoted string literal. Unlike sqlx.IsQuoted, a backslash
+// does not escape a quote: in standard strings, quotes are escaped only by doubling them.
+func isQuoted(s string) bool {
+	if len(s) < 2 || s[0] != '\'' || s[len(s)-1] != '\'' {
+		return false
+	}
+	for in := s[1 : len(s)-1]; ; {
+		i := strings.IndexByte(in, '\'')
+		if i == -1 {
+			return true
+		}
+		if i+1 >= len(in) || in[i+1] != '\'' {
+			return false
+		}
+		in = in[i+2:]
+	}
 }
 
 func (s *state) createDropEnum(e *schema.EnumType) (string, string) {
